@@ -18,7 +18,7 @@ print('baseline passes', base)
 for d in sorted(os.listdir(src)):
     if not d.startswith('out-C'): continue
     pid = d[4:]
-    for k in (1, 2, 3):
+    for k in range(1, 10):
         patch = os.path.join(src, d, 'patch_%d.diff' % k)
         demo = os.path.join(src, d, 'demo_%d.py' % k)
         meta = os.path.join(src, d, 'meta_%d.json' % k)
